@@ -12,6 +12,7 @@ pub mod c13;
 pub mod c14;
 pub mod c15;
 pub mod c16t;
+pub mod c17a;
 pub mod c18;
 pub mod c19;
 pub mod fuzz;
